@@ -100,7 +100,7 @@ def work(prop, master, idxs, tier, faults):
     for i in idxs:
         seed = i if family else R.run_seed_for(master, prop, i, faults)
         try:
-            r = R.simulate_strat(prop, family, i) if family else R.simulate(prop, seed, tier, faults)
+            r = R.simulate_strat(prop, family, i, master) if family else R.simulate(prop, seed, tier, faults)
         except Exception:
             agg["errors"].append({"seed": seed, "i": i, "tb": traceback.format_exc()})
             continue
@@ -291,7 +291,7 @@ def cross_interpreter_check(prop, master, n, tot):
         if fam == "terms":
             idxs = [space - 1 - (i % (space // 2)) for i in idxs] + idxs[:n // 4]
         for idx in idxs:
-            runs.append(R.simulate_strat(prop, fam, idx))
+            runs.append(R.simulate_strat(prop, fam, idx, master))
     runs = [r for r in runs if not r["violation"]]
     ops_list = [r["ops"] for r in runs]
     here = [[e[2][:16] for e in r["events"]] for r in runs]
@@ -548,7 +548,7 @@ def _digest_list(prop, n):
         out.append(R.simulate(prop, sd, "quick", bool(i % 2))["digest"])
     for fam, space, _ in S.families(prop, "thorough"):
         for idx in S.sample_indices(99, fam, space, max(2, n // 4)):
-            out.append(R.simulate_strat(prop, fam, idx)["digest"])
+            out.append(R.simulate_strat(prop, fam, idx, 99)["digest"])
     return out
 
 
